@@ -32,10 +32,14 @@ pub fn store_coords(
         let (data_type, len, fill_value) = value_to_zarr_coord_params(coord);
         let name: &String = name;
 
-        let coord_array =
-            ArrayBuilder::new(vec![len as u64], vec![len as u64], data_type, fill_value)
-                .dimension_names(Some(vec![name.to_string()]))
-                .build(store.clone(), &format!("{}/{}", group, name))?;
+        let coord_array = ArrayBuilder::new(
+            vec![len as u64],
+            vec![(len as u64).max(1)],
+            data_type,
+            fill_value,
+        )
+        .dimension_names(Some(vec![name.to_string()]))
+        .build(store.clone(), &format!("{}/{}", group, name))?;
 
         if len > 0 {
             let subset = vec![0];
